@@ -48,7 +48,7 @@ def judge(rep, s, m):
     if kc:
         rep.violation(H.step_case(s, model=[list(mout), adm]), "known class " + kc, found_input=True, signature="C06/known/" + kc)
         return
-    if bad and len(rep.violations) < 6:
+    if bad:
         rep.violation(H.step_case(s, model=[list(mout), adm]),
                       "%s.%s%r from tree %r — %s" % (s.kind, s.op[0], s.op[1:], [e[:2] for e in s.pre][:10], bad[1]),
                       found_input=True, signature="C06/%s/%s/%s/%s" % (s.kind, s.op[0], bad[0], cls))
